@@ -57,7 +57,7 @@ class Ctx:
         else:
             self.tol_pos = 1e-9 * (1.0 + self.maxabs) + 1e-9 * unit
             self.tol_dist = self.tol_pos
-        self.inmem = doc.get("backend", "inmem") in ("inmem", "inmem_api", "pickle")
+        self.inmem = doc.get("backend", "inmem") in ("inmem", "inmem_api", "pickle")   # lists a node as its own neighbour
         self.fragile = 0
         self.probes = {}
         self.tracker = LatticeTracker()
